@@ -49,6 +49,7 @@ type poolObs struct {
 	Length  int
 	Resp    string
 	Req     string
+	Accept string // what AcceptedTypes() says: "own" = the types of THIS request's Accept header
 	// mutation "nested": what the handler finds in its context after it served another request on the same router
 	AfterNested string
 }
@@ -143,6 +144,10 @@ func newPoolRouter(hook, caching bool) *poolRouter {
 			if h != nil {
 				o.App = "written by the router"
 			}
+		}
+		o.Accept = "own"
+		if at := c.AcceptedTypes(); len(at) != 2 || at[0] != "text/x-req" || at[1] != "application/json" {
+			o.Accept = fmt.Sprintf("other%v", at)
 		}
 		o.Query = "own"
 		if qv := c.QueryValues(); c.Query("token") != "t" || len(qv["limit"]) != 0 || len(qv) != 1 {
@@ -274,7 +279,7 @@ func (pr *poolRouter) serve(q *poolReq) (obs *poolObs, code int, body string) {
 			rw = &hijackableRecorder{w}
 		}
 	}
-	req := &http.Request{Method: "GET", URL: &url.URL{Path: path, RawQuery: "token=t"}, Header: http.Header{}, Proto: "HTTP/1.1"}
+	req := &http.Request{Method: "GET", URL: &url.URL{Path: path, RawQuery: "token=t"}, Header: http.Header{"Accept": {"text/x-req, application/json;q=0.8"}}, Proto: "HTTP/1.1"}
 	pr.cur, pr.obs, pr.w, pr.req = q, nil, rw, req
 	func() {
 		defer func() { _ = recover() }()
@@ -405,7 +410,7 @@ func poolReplay(s *Summary, raw json.RawMessage) {
 	// against the model
 	want := poolObs{Params: c.Expect["params"].(string), Errors: int(c.Expect["errors"].(float64)), Aborted: c.Expect["aborted"].(bool),
 		Status: int(c.Expect["status"].(float64)), Length: int(c.Expect["length"].(float64)), Resp: c.Expect["resp"].(string), Req: c.Expect["req"].(string),
-		Router: c.Expect["router"].(string), Query: c.Expect["query"].(string), App: "own"}
+		Router: c.Expect["router"].(string), Query: c.Expect["query"].(string), App: "own", Accept: "own"}
 	for _, k := range c.Expect["data"].([]any) {
 		want.Data = append(want.Data, k.(string))
 	}
